@@ -215,34 +215,8 @@ func c18(c *Ctx) {
 				switch {
 				case fv == stateFld && fv != nil:
 					w++
-					okW := c.isAnchor(topFn(f), "internal/session.(*Session).handleLogin")
-					fromGetState, onNil := false, false
-					if ex, isEx := st.Val.(*ssa.Extract); isEx && ex.Index == 0 {
-						if call, isCall := ex.Tuple.(*ssa.Call); isCall {
-							if sc := call.Call.StaticCallee(); sc != nil && engine.ShortName(sc) == "GetState" {
-								fromGetState = true
-								for _, r := range *call.Referrers() {
-									if e1, ok := r.(*ssa.Extract); ok && e1.Index == 1 {
-										for _, r2 := range *e1.Referrers() {
-											if bin, ok := r2.(*ssa.BinOp); ok {
-												for _, r3 := range *bin.Referrers() {
-													if iff, ok := r3.(*ssa.If); ok {
-														nilIx := 1
-														if bin.Op.String() == "==" {
-															nilIx = 0
-														}
-														if engine.EdgeDominates(iff.Block(), nilIx, st.Block()) {
-															onNil = true
-														}
-													}
-												}
-											}
-										}
-									}
-								}
-							}
-						}
-					}
+					okW := c.stateFromSuccessfulGetState(f, st.Val, st.Block(), 0)
+					fromGetState, onNil := okW, okW
 					R.Check(okW && fromGetState && onNil, "R18.2", c.name(f)+"|store Session.state", P.Pos(st.Pos()), "Session.state is set from Backend.GetState's result on its nil-error edge in handleLogin",
 						"Session.state is assigned outside handleLogin / not from a successful Backend.GetState: a session could become authenticated without valid credentials")
 				case fv != nil && fv.Name() == "user" && engine.IsNamed(fa.X.Type(), "internal/state", "State"):
@@ -658,4 +632,70 @@ func c18selectCommitsLast(c *Ctx) {
 		}
 	}
 	R.Min("R18.7", "snapshot installations in Select/Examine", n, 2)
+}
+
+// stateFromSuccessfulGetState: v, used in block `at` of f, is the first result of Backend.GetState on its
+// nil-error edge inside handleLogin - or f is a helper that receives it as a parameter from such a place
+// at every call site.
+func (c *Ctx) stateFromSuccessfulGetState(f *ssa.Function, v ssa.Value, at *ssa.BasicBlock, depth int) bool {
+	if ex, isEx := v.(*ssa.Extract); isEx && ex.Index == 0 {
+		if !c.isAnchor(topFn(f), "internal/session.(*Session).handleLogin") {
+			return false
+		}
+		call, isCall := ex.Tuple.(*ssa.Call)
+		if !isCall {
+			return false
+		}
+		sc := call.Call.StaticCallee()
+		if sc == nil || engine.ShortName(sc) != "GetState" {
+			return false
+		}
+		for _, r := range *call.Referrers() {
+			e1, ok := r.(*ssa.Extract)
+			if !ok || e1.Index != 1 {
+				continue
+			}
+			for _, r2 := range *e1.Referrers() {
+				bin, ok := r2.(*ssa.BinOp)
+				if !ok {
+					continue
+				}
+				for _, r3 := range *bin.Referrers() {
+					if iff, ok := r3.(*ssa.If); ok {
+						nilIx := 1
+						if bin.Op.String() == "==" {
+							nilIx = 0
+						}
+						if engine.EdgeDominates(iff.Block(), nilIx, at) {
+							return true
+						}
+					}
+				}
+			}
+		}
+		return false
+	}
+	if p, isParam := v.(*ssa.Parameter); isParam && depth < 2 && f.Parent() == nil {
+		idx := -1
+		for i, q := range f.Params {
+			if q == p {
+				idx = i
+			}
+		}
+		callers := c.P.CallersOf(f)
+		if idx < 0 || len(callers) == 0 {
+			return false
+		}
+		for _, cs := range callers {
+			args := cs.Common().Args
+			if cs.Common().IsInvoke() || idx >= len(args) {
+				return false
+			}
+			if !c.stateFromSuccessfulGetState(cs.Fn, args[idx], cs.Instr.Block(), depth+1) {
+				return false
+			}
+		}
+		return true
+	}
+	return false
 }
